@@ -19,6 +19,11 @@ EncWhy ==
   ELSE IF Ev.marshalErr THEN "ok"
   ELSE IF HasNumX(Ev.json) THEN "ok"
   ELSE IF ~Valid(sdefs, sdefs[Ev.model], Ev.json) THEN "the JSON produced by encoding/json is not valid for the scanned definition"
+  \* the definition names the properties of the encoding: a key encoding/json writes (and that is not
+  \* swagger:ignore'd) is a declared property, unless the definition is open by an additionalProperties schema
+  ELSE IF /\ Tag(Ev.json) = "obj" /\ Has(sdefs[Ev.model], "properties") /\ ~Has(sdefs[Ev.model], "additionalProperties")
+          /\ \E k \in DOMAIN Val(Ev.json) : k \notin DOMAIN AllProps(sdefs, sdefs[Ev.model]) /\ k \notin {Ev.ignored[i] : i \in DOMAIN Ev.ignored}
+    THEN "encoding/json writes a property the scanned definition does not declare"
   ELSE "ok"
 TEncoded == IsEvent("Encoded") /\ UNCHANGED sdefs /\ Judge(EncWhy)
 TDecoded ==
